@@ -522,7 +522,9 @@ def r9(ctx):
     f = ctx.facts
     IM = "ranger::Store::initial_message"
     b = f.body(IM)
-    ctx.touch(b, f.body("ranger::Message::<E>::init"))
+    ctx.touch(b)
+    if "ranger::Message::<E>::init" in f.bodies:      # (a private single-caller constructor: RF35 inlined it)
+        ctx.touch(f.bodies["ranger::Message::<E>::init"])
     for first_ok in (1, 0):
         for fp_ok in (1, 0):
             if not first_ok and not fp_ok:
